@@ -251,18 +251,32 @@ def run_cell_with_fallback(cell, unit_c_path, workdir, log):
     return r
 
 
-def trace_inputs(trace, prefix="in_"):
-    """Last assignment to each harness input variable (name starts with prefix),
-    as bit patterns where cbmc provides them."""
+def _flatten(name, v, out):
+    if not isinstance(v, dict):
+        return
+    if "members" in v:
+        for m in v["members"]:
+            _flatten(name + "." + m["name"], m.get("value"), out)
+    elif "elements" in v:
+        for e in v["elements"]:
+            _flatten("%s[%s]" % (name, e["index"]), e.get("value"), out)
+    else:
+        out[name] = {"name": v.get("name"), "data": v.get("data"), "binary": v.get("binary"), "type": v.get("type")}
+
+
+def trace_inputs(trace, prefixes=("in_", "verif_b_result", "verif_ghost")):
+    """Last assignment to each harness input variable (name starts with a prefix), flattened to scalar
+    leaves, as bit patterns where cbmc provides them."""
+    import re as _re
     vals = {}
     for st in trace:
         if st.get("stepType") != "assignment":
             continue
-        lhs = st.get("lhs", "")
-        base = lhs.split(".")[0].split("[")[0]
-        if not base.startswith(prefix):
+        lhs = _re.sub(r"\[(\d+)[lu]*\]", r"[\1]", st.get("lhs", ""))
+        if not lhs.startswith(tuple(prefixes)):
             continue
-        v = st.get("value", {})
-        ent = {"name": v.get("name"), "data": v.get("data"), "binary": v.get("binary"), "type": v.get("type")}
-        vals[lhs] = ent
+        fn = (st.get("sourceLocation") or {}).get("function", "")
+        if fn and not fn.startswith("h_"):
+            continue
+        _flatten(lhs, st.get("value", {}), vals)
     return vals
